@@ -312,6 +312,13 @@ func (f *g2lFn) leanType(t types.Type, at ast.Node) string {
 				return f.structType(n.Obj().Name())
 			}
 		}
+		// *string, *[]T parameters: the pointee (the function must be configured as in-out for that parameter)
+		if _, ok := p.Elem().Underlying().(*types.Basic); ok {
+			return f.leanType(p.Elem(), at)
+		}
+		if _, ok := p.Elem().Underlying().(*types.Slice); ok {
+			return f.leanType(p.Elem(), at)
+		}
 	}
 	switch u := t.Underlying().(type) {
 	case *types.Map:
@@ -517,6 +524,32 @@ func (f *g2lFn) expr(b *binds, e ast.Expr) string {
 			}
 			if c, ok := f.u.pkgVars[e.Name]; ok {
 				return c
+			}
+			// `var x = []byte("literal")` / `var x = "literal"`: inlined from the declaration (regenerated with the source)
+			for _, file := range f.p.files {
+				for _, d := range file.Decls {
+					gd, ok := d.(*ast.GenDecl)
+					if !ok || gd.Tok != token.VAR {
+						continue
+					}
+					for _, sp := range gd.Specs {
+						vs := sp.(*ast.ValueSpec)
+						for i, n := range vs.Names {
+							if n.Name != e.Name || i >= len(vs.Values) {
+								continue
+							}
+							v := vs.Values[i]
+							if c, ok := v.(*ast.CallExpr); ok && len(c.Args) == 1 {
+								if tv, ok := f.p.info.Types[c.Fun]; ok && tv.IsType() && isByteSlice(tv.Type) {
+									v = c.Args[0]
+								}
+							}
+							if tv, ok := f.p.info.Types[v]; ok && tv.Value != nil && tv.Value.Kind() == constant.String {
+								return bytesLit(constant.StringVal(tv.Value))
+							}
+						}
+					}
+				}
 			}
 			// package-level variable: only error sentinels are supported
 			if isErrorType(o.Type()) {
